@@ -2885,8 +2885,7 @@ void mmd_engine_update_metavalue_for_key(mmd_engine * e, const char * key, const
 				line_start--;
 			}
 
-			if ((strncmp(e->dstr->str, "---", 3) == 0) &&
-					(line_start > start) && (line_stop - line_start >= 3) &&
+			if ((line_start > start) && (line_stop - line_start >= 3) &&
 					(strspn(&(e->dstr->str[line_start]), "-") >= line_stop - line_start)) {
 				meta_end = line_start;
 			}
